@@ -57,7 +57,7 @@ def run(chk):
     big = chk.tier == 'thorough'
     n = 700 if not big else 30000
     cases = scen.boundary_cases()
-    cases += [scen.gen_case(chk.rng, chk.tier, chk.rng.choice(['', '', 'start'])) for _ in range(n)]
+    cases += [scen.gen_case(chk.rng, chk.tier, chk.rng.choice(['', 'residual', 'start'])) for _ in range(n)]
     results = chk.run_cases(SCEN, cases, sched=True)
     chk.account(scen, results, 'E1-detsched')
     chk.collect_monitors(results, {'C11'}, keyfn)
@@ -68,6 +68,9 @@ def run(chk):
         dist[t] = dist.get(t, 0) + 1
         dist['fail-plans'] = dist.get('fail-plans', 0) + (case['fail'] is not None)
         dist['model-events'] = dist.get('model-events', 0) + res.get('n_events', 0)
+        for rsd in res.get('residual', []):
+            kk = 'sessions-exited-with-residual-' + ('0' if rsd == 0 else '1-2' if rsd <= 2 else '3+')
+            dist[kk] = dist.get(kk, 0) + 1
     chk.cov['distribution'] = dist
     for case, res in results[:300]:
         if scen.nontrivial(case, res) and case['tree'][0] != 'T':
